@@ -30,8 +30,8 @@ impl Window {
 
     pub fn around(eval: Eval, width: Eval) -> Self {
         Self {
-            alpha: clamp_alpha(eval - width),
-            beta: clamp_beta(eval + width),
+            alpha: clamp_alpha(Eval(eval.0.saturating_sub(width.0))),
+            beta: clamp_beta(Eval(eval.0.saturating_add(width.0))),
 
             width,
         }
@@ -39,16 +39,16 @@ impl Window {
 
     pub fn widen_down(&mut self) {
         self.increase_window_widening_rate();
-        self.alpha = clamp_alpha(self.alpha - self.width);
+        self.alpha = clamp_alpha(Eval(self.alpha.0.saturating_sub(self.width.0)));
     }
 
     pub fn widen_up(&mut self) {
         self.increase_window_widening_rate();
-        self.beta = clamp_beta(self.beta + self.width);
+        self.beta = clamp_beta(Eval(self.beta.0.saturating_add(self.width.0)));
     }
 
     fn increase_window_widening_rate(&mut self) {
-        self.width = self.width + self.width / 2;
+        self.width = Eval(self.width.0.saturating_add(self.width.0 / 2));
     }
 }
 
